@@ -757,13 +757,13 @@ class Interp:
 
     def call_repo_function(self, fn, args, kwargs, force_body=False):
         key = self.key_of(fn)
+        node = self.node_of(fn)
+        if self.is_generator_node(node) and not force_body:
+            return GenObj(fn, args, kwargs)     # (a contract, if any, is applied when the generator is run)
         if not force_body:
             c = self.contracts.get(key)
             if c is not None:
                 return self.apply_contract(key, c, args, kwargs)
-        node = self.node_of(fn)
-        if self.is_generator_node(node) and not force_body:
-            return GenObj(fn, args, kwargs)
         if isinstance(node, ast.AsyncFunctionDef) and not force_body and self.await_handler is None:
             raise Unsupported("call of coroutine function %s" % key)
         return self.run_function(fn, node, args, kwargs)
@@ -861,7 +861,18 @@ class Interp:
         try:
             if c.requires is not None:
                 ctx.require(c.requires(*args, **kwargs), "requires")
-            return c.spec(*args, **kwargs)
+            r = c.spec(*args, **kwargs)
+            if key.endswith(".__init__") and args and isinstance(args[0], SObj):
+                # a constructor contract fixes the abstract view; the remaining (private) fields are whatever the
+                # class's real constructor derives from that view
+                from .values import canonical, canon_entry
+                ent = canon_entry(args[0].cls)
+                if ent is not None and all(f in args[0].fields for f in ent[1]):
+                    twin = canonical(SObj(args[0].cls, {f: args[0].fields[f] for f in ent[1]}))
+                    for k, v in twin.fields.items():
+                        if k not in args[0].fields:
+                            args[0].fields[k] = v
+            return r
         except SpecRaise as s:
             classes = s.classes
             for k in classes[:-1]:
@@ -877,6 +888,11 @@ class Interp:
         if g.started:
             raise Unsupported("generator object resumed twice")
         g.started = True
+        key = self.key_of(g.func)
+        c = self.contracts.get(key)
+        if c is not None:
+            # a sequence under contract: its yields are summarised by the contract's effect on the unit model
+            return self.apply_contract(key, c, g.args, g.kwargs)
         return self.call_repo_function(g.func, g.args, g.kwargs, force_body=True)
 
     def gen_method(self, g, name, args):
